@@ -61,7 +61,7 @@ PROBES = {'C06': ['readd_removed_other_stride', 'append_differing_props', 'extra
                   'op_on_empty_array', 'nonlocal_tags_at_align', 'pickle_strided', 'set_tag_called',
                   'clear_then_reuse', 'append_update_constants', 'remove_all', 'extract_duplicate_indices',
                   'add_property_fills_empty_array', 'fill_empty_array_with_strided_props_declared', 'remove_unsorted_indices', 'copy_properties_open_ended', 'redeclared_existing_property',
-                  'redeclared_existing_strided_property', 'truthy_flag_not_the_True_object']}
+                  'redeclared_existing_strided_property', 'truthy_flag_not_the_True_object', 'replicas_from_particles_info']}
 
 
 def prepare(prop, tier):
@@ -126,7 +126,7 @@ OPK = [('add_particles', 6), ('remove_particles', 6), ('remove_tagged', 3), ('ex
        ('extend', 4), ('resize', 2), ('add_property', 6), ('remove_property', 5), ('add_constant', 2),
        ('retag', 5), ('set_tag', 1), ('set', 4), ('set_const', 1), ('copy_properties', 3), ('copy_over', 2),
        ('set_to_zero', 2), ('empty_clone', 2), ('ensure_properties', 3), ('output_arrays', 2),
-       ('get_property_arrays', 2), ('pickle', 3), ('deepcopy', 2), ('align', 3), ('clear', 1)]
+       ('get_property_arrays', 2), ('pickle', 3), ('deepcopy', 2), ('align', 3), ('clear', 1), ('info_replicas', 1)]
 
 
 def gen(t, prop, tier):
@@ -849,6 +849,26 @@ def apply_op(w, op):
         else:
             return None
         desc = 'empty_clone(props=%s)' % (props,)
+    elif k == 'info_replicas':
+        # empty replicas of all arrays from their recorded information (what a restart or a parallel run does)
+        from pysph.base.utils import get_particles_info, create_dummy_particles
+        if len(set(x.name for x in w.real)) != len(w.real):
+            return None
+        reps = create_dummy_particles(get_particles_info(w.real))
+        for j, (rp, mm) in enumerate(zip(reps, w.model)):
+            if rp.name != w.real[j].name or rp.get_number_of_particles() != 0:
+                w.violate('replica', 'replica %d is %r with %d particles' % (j, rp.name, rp.get_number_of_particles()), op='info_replicas')
+                break
+            got = {p: (rp.properties[p].get_c_type(), rp.stride.get(p, 1), rp.default_values[p]) for p in rp.properties}
+            want = {p: (v[0], v[1], v[2]) for p, v in mm.props.items()}
+            if got != want:
+                bad = sorted(p for p in set(got) | set(want) if got.get(p) != want.get(p))[:3]
+                w.violate('replica', 'the empty replica of array %d declares %r, the array has %r' % (
+                    j, {p: got.get(p) for p in bad}, {p: want.get(p) for p in bad}), op='info_replicas')
+                break
+        w.probe('replicas_from_particles_info')
+        w.kinds.append(k)
+        return 'create_dummy_particles(get_particles_info(all arrays))', touched
     elif k == 'ensure_properties':
         if bi == ai:
             return None
